@@ -61,6 +61,30 @@ Theorem c04_early_directives_sound : forall U me h a b v q,
 Proof. intros U. exact (dirs_sound U lost_broadcasts false). Qed.
 Print Assumptions c04_early_directives_sound.
 
+(* link callbacks made before / during construction (self-dials, duplicates,
+   same-uuid replacements, in any order k after the constructor returned,
+   interleaved with early requests pre): tables, closed links and readiness are
+   those of a controller constructed first that received the same callbacks *)
+Theorem c04_startup_link_events_irrelevant : forall U me pre k,
+  forallb is_request pre = true ->
+  teq (run_gen U lost_broadcasts (init0 me) (pre ++ Ready :: k)) (run_gen U lost_broadcasts (init me) k).
+Proof. intros U. exact (startup_tables_irrelevant U lost_broadcasts). Qed.
+Print Assumptions c04_startup_link_events_irrelevant.
+
+(* the self-dial rule holds from the not-yet-constructed state too, for every history *)
+Theorem c04_self_never_yielded_from_startup : forall U me h src dst q,
+  remote_of U q = me -> ~ In q (yielded U lost_broadcasts false me h src dst).
+Proof.
+  intros U me h src dst q Hs H. pose proof (yielded_sound U lost_broadcasts false _ _ _ _ _ H) as H'.
+  unfold DirOk in H'. tauto.
+Qed.
+Print Assumptions c04_self_never_yielded_from_startup.
+
+Theorem c04_self_never_reported_from_startup : forall U me h r q,
+  remote_of U q = me -> ~ In q (get_peer_links U (run_gen U lost_broadcasts (init0 me) h) r).
+Proof. intros U. exact (self_never_reported U lost_broadcasts false). Qed.
+Print Assumptions c04_self_never_reported_from_startup.
+
 (* a link whose remote peer is the local peer is closed, changes no table ... *)
 Theorem c04_self_dial_closed : forall U s p,
   remote_of U p = st_peer s -> do_est U s p = close_only s p.
